@@ -100,11 +100,29 @@ func goSites(repo string) (descs []string, err error) {
 		return nil
 	})
 	sort.Strings(files)
+	// parse per directory (= package) and bring every package into the normal form of normalize.go:
+	// `go x.helper(a)` with a single-use unexported helper is the site `Owner:func#k`, like a literal
+	parsed := map[string]*ast.File{}
+	byDir := map[string]map[string]*ast.File{}
 	for _, path := range files {
 		af, perr := parser.ParseFile(fset, path, nil, 0)
 		if perr != nil {
 			return nil, perr
 		}
+		d := filepath.Dir(path)
+		if byDir[d] == nil {
+			byDir[d] = map[string]*ast.File{}
+		}
+		byDir[d][path] = af
+	}
+	for _, m := range byDir {
+		normalizePackage(fset, m, func(k string) string { return k })
+		for k, af := range m {
+			parsed[k] = af
+		}
+	}
+	for _, path := range files {
+		af := parsed[path]
 		for _, d := range af.Decls {
 			fd, ok := d.(*ast.FuncDecl)
 			if !ok || fd.Body == nil {
